@@ -10,8 +10,10 @@ import time
 from harness import tlc, replay, common
 
 VERIF = os.path.dirname(os.path.dirname(os.path.abspath(__file__)))
-EVID = os.path.join(VERIF, 'evidence')
-REPLAYS = os.path.join(VERIF, 'replays')
+_ALT = os.environ.get('VERIF_REPO', '/repo').rstrip('/') != '/repo'
+# evidence / replays of a run against another tree (seeded change, reverted fix) never touch the committed evidence
+EVID = os.path.join(VERIF, '.work', 'evidence-alt') if _ALT else os.path.join(VERIF, 'evidence')
+REPLAYS = os.path.join(VERIF, '.work', 'replays-alt') if _ALT else os.path.join(VERIF, 'replays')
 FINDINGS = os.path.join(VERIF, 'known_findings.json')
 
 
